@@ -325,7 +325,9 @@ def run(chk):
     chk.notes["explanation"] = ("inductive invariant over all API histories: representation private to the defining modules (rustc privacy) + "
                                 "every externally reachable body of those modules that hands back or mutates a table preserves 'no bit >= 2^n, table_size(n) blocks' "
                                 "on symbolic well-formed inputs (bitflow abstract interpretation of MIR); eq/hash/cmp compare exactly the representation")
-
+    if chk.tier == "thorough":
+        from .. import witnesses
+        witnesses.run(chk, "C02", ['W1'])
 
 LUT_ADT = "lut::Lut"
 SLUT_ADT = "static_lut::StaticLut"
